@@ -642,16 +642,16 @@ Qed.
 Definition refute_progs : list (list op) := [[OReq; OEmplace 7]; [OGet]; [OGet]].
 Definition refute_sched : list Z := [0; 0; 0; 0; 0; 0; 1; 0; 1; 0; 1; 0; 1; 0; 0].
 
+Definition refute_state (kp : bool) : state := fst (fst (run_ar 20 kp refute_progs refute_sched)).
+
 Lemma refuted_run kp :
-  let '(s, tr, st) := run_ar 20 kp refute_progs refute_sched in
-  st = SDone /\ delivered 7 s = 2 /\
-  map (fun th => rev (res th)) (threads s) = [[(r_emplace, 1)]; [(r_get, 7)]; [(r_get, 7)]].
+  delivered 7 (refute_state kp) = 2 /\
+  map (fun th => rev (res th)) (threads (refute_state kp)) = [[(r_emplace, 1)]; [(r_get, 7)]; [(r_get, 7)]] /\
+  snd (run_ar 20 kp refute_progs refute_sched) = SDone.
 Proof. destruct kp; vm_compute; repeat split; reflexivity. Qed.
 
 Lemma refuted_reach kp : exists s, reach step (init kp refute_progs) s /\ delivered 7 s = 2.
 Proof.
-  pose proof (run_reach step cands finished 20 (init kp refute_progs) refute_sched [] _ (reach_refl step _)) as R.
-  pose proof (refuted_run kp) as Q. unfold run_ar in Q.
-  destruct (run step cands finished 20 (init kp refute_progs) refute_sched []) as [[s tr] st]. cbn [fst] in R.
-  exists s. split; [exact R | tauto].
+  exists (refute_state kp). split; [|apply refuted_run].
+  unfold refute_state, run_ar. apply run_reach. apply reach_refl.
 Qed.
